@@ -105,6 +105,8 @@ def _noop_kwargs(kind, shape):
 
 def build_arrays(net):
     """fresh caller-owned network: object grid of float64 arrays mantissa * 2^k (exact, np.ldexp)"""
+    if hasattr(net, 'build'):      # graded networks (harness/c11_graded.py): per-entry powers of two
+        return net.build()
     tn = np.empty((net.R, net.C), dtype=object)
     for r in range(net.R):
         for c in range(net.C):
@@ -488,7 +490,16 @@ def replay_history(rep):
     from fractions import Fraction
     from qecsim import tensortools as tt
     from harness.c11 import Net
-    net = Net.from_json(rep['net'])
+    if rep['net'].get('graded'):
+        from harness.c11_graded import GNet
+        net = GNet.from_json(rep['net'])
+        if net.certificate() is None:
+            print('the recorded network is not graded / leaves the exactness window')
+            return 2
+        from harness.c11 import exact_fraction_value
+        print('exact rational value of the float network:', exact_fraction_value(net.build()))
+    else:
+        net = Net.from_json(rep['net'])
     exact = Fraction(exact_mantissa_value(net)) * Fraction(2) ** net.total_scale()
     print('exact value:', exact)
     tn = build_arrays(net)
